@@ -58,7 +58,7 @@ def gen(rng, tier):
                                       'style': ['loop', 'next-then-loop', 'batches'][(n + k + len(cases)) % 3],
                                       'cut': rng.randrange(1, 20), 'big': rng.choice([6001, 6002, 70000, 0x40404040, 0xffffffff])})
     # resilient consumers: several bad records in one file, the consumer keeps the reader after each data error
-    for i in range(180 if tier == 'quick' else 3000):
+    for i in range(180 if tier == 'quick' else 9000):
         codec = rng.choice(['latin_1', 'cp500'])
         n = rng.choice([2, 3, 4, 6, 9])
         slots = []
